@@ -1,5 +1,6 @@
 """C08 — compile is all-or-nothing."""
-from ..facts import callee_of, short, sp_file_line
+import re
+from ..facts import callee_of, short, sp_file_line, expr_str
 from .. import kit
 from ..stages import StageAnalysis, STAGES
 from .c07 import command_units, MAIN
@@ -182,6 +183,74 @@ def run(ctx):
                           "`%s` can panic at `%s` [%s] after the destination was opened: compile would exit non-zero although the destination has "
                           "already been created or overwritten" % (short(st.fn.name), st.desc, st.kind))
     ctx.note("functions called behind the open: %s; %d panic site(s)" % ([short(c) for c in after_callees], nsite))
+    ctx.finish_rule()
+
+
+    # ------------------------------------------------------------------ R6
+    # "exits non-zero" must not depend on arithmetic: an exit status computed at run time (an error count, say) is truncated to 8 bits by
+    # the operating system, so some failures would exit 0 with nothing written
+    ctx.rule("C08.R6", "exit statuses on the compile path are constants", floor=0)
+    callees_c = {c for b, t, c in main.calls() if b in region and c in prog_fns(ctx)}
+    scope6 = {n for n in (ctx.cg.reachable(sorted(callees_c)) | callees_c) if n in prog_fns(ctx) and not n.startswith("lace::runtime::") and not n.startswith("lace::debugger::")}
+    scope6.add(MAIN)
+    for n in sorted(scope6):
+        f = ctx.prog.fns[n]
+        for b, t, c in f.calls():
+            if c != "std::process::exit" or (n == MAIN and b not in region):
+                continue
+            ctx.instance(1)
+            a = f.expr(t["args"][0], 8)
+            ok = a[0] == "const"
+            ctx.oblig(ok, {"exit in": short(n), "status": expr_str(a, 40)}, "a constant")
+            if not ok:
+                ctx.violation("computed-exit-status|%s" % short(n), sp_file_line(t.get("sp")),
+                              "`%s` exits with the computed status `%s`: only its low 8 bits reach the caller, so a value that is a multiple of 256 "
+                              "reports success although compile failed and wrote nothing" % (short(n), expr_str(a, 60)))
+    ctx.finish_rule()
+
+    # ------------------------------------------------------------------ R7
+    # behind the opening of the destination, the only thing that may still fail is writing the destination itself; any other fallible step
+    # there (a second output file, a late check) can fail *after* the object file is complete - non-zero exit, destination changed
+    ctx.rule("C08.R7", "nothing but the destination's own writes can fail once it has been opened", floor=1)
+    from ..facts import expr_walk
+    err_edges = sorted(kit.result_err_edges(main))
+    n7 = 0
+    for eb, et in err_edges:
+        if eb not in after:
+            continue
+        e = main.expr(main.term(eb)["a"], 14)
+        calls_e = [x for x in expr_walk(e) if x[0] == "call"]
+        io = [x for x in calls_e if is_write(str(x[1])) or str(x[1]).startswith("std::fs::") or "std::io::" in str(x[1])]
+        if not io:
+            continue          # not an I/O result (handled by R1: no assembler-level failure behind the open)
+        n7 += 1
+        ctx.instance(1)
+        def on_dest(x):
+            if is_write(str(x[1])) and any(y[0] == "call" and str(y[1]) in OPENERS for a_ in x[2][:1] for y in expr_walk(a_)):
+                return True
+            if len(opens) == 1 and is_write(str(x[1])) and str(x[1]) in OPENERS and any(ob_ in main.dominators().get(eb, ()) for ob_, oc_ in opens if oc_ == str(x[1])):
+                return True          # `fs::write(dest, bytes)`: opening and writing in one call - its own failure
+            return False
+
+        def closure_writes(x):
+            """`words.iter().try_for_each(|w| file.write_all(..))`: the drain fails only through the closure's write on the captured destination"""
+            if not re.search(r"Iterator>?::(try_for_each|try_fold)$", str(x[1])):
+                return False
+            for y in expr_walk(x):
+                if y[0] == "agg" and isinstance(y[1], tuple) and y[1] and y[1][0] == "closure" and y[1][1] in ctx.prog.fns:
+                    g = ctx.prog.fns[y[1][1]]
+                    if any(is_write(c_) for b_, t_, c_ in g.calls()) and any(z[0] == "call" and str(z[1]) in OPENERS for cap in y[2] for z in expr_walk(cap)):
+                        return True
+            return False
+        drains = [x for x in calls_e if closure_writes(x)]
+        strangers = [x for x in io if not on_dest(x) and not str(x[1]) in OPENERS and not str(x[1]).endswith("into_diagnostic")]
+        ok = (any(on_dest(x) for x in io) or bool(drains)) and not strangers
+        ctx.oblig(ok, {"fallible step behind the open": [short(str(x[1])) for x in io][:3]}, "a write on the opened destination")
+        if not ok:
+            ctx.violation("late-failure|%s" % short(str((strangers or io)[0][1])), sp_file_line(main.term(eb).get("sp")),
+                          "behind the opening of the destination the compile arm can fail in `%s`, which is not a write to the destination: if it fails the "
+                          "object file is already (partly or completely) written and compile exits non-zero" % short(str((strangers or io)[0][1])))
+    ctx.note("%d fallible I/O step(s) behind the open" % n7)
     ctx.finish_rule()
 
 
